@@ -81,9 +81,20 @@ pub fn child(args: &[String]) -> i32 {
     let sb = Sandbox::new();
     let cx = Arc::new(AtomicUsize::new(0));
     let cy = Arc::new(AtomicUsize::new(0));
+    let flip = std::cell::Cell::new(false);
     let build = |k: &ConfSpec| {
         let (cx, cy) = (cx.clone(), cy.clone());
-        build_config(k, &mut |n| Box::new(CountAppender(if n == "x" { cx.clone() } else { cy.clone() }))).expect("valid")
+        // every other configuration is built with another root level, which is then corrected through root_mut().set_level
+        flip.set(!flip.get());
+        if flip.get() {
+            let mut k2 = k.clone();
+            k2.root_level = if k.root_level == LevelFilter::Trace { LevelFilter::Off } else { LevelFilter::Trace };
+            let mut c = build_config(&k2, &mut |n| Box::new(CountAppender(if n == "x" { cx.clone() } else { cy.clone() }))).expect("valid");
+            c.root_mut().set_level(k.root_level);
+            c
+        } else {
+            build_config(k, &mut |n| Box::new(CountAppender(if n == "x" { cx.clone() } else { cy.clone() }))).expect("valid")
+        }
     };
     // how deliveries are observed depends on the entry point
     enum Obs {
